@@ -288,7 +288,7 @@ EvPut(W, x, srcs, i) ==
        ELSE LET r == PutToShard(W, t, x) IN
             IF r[1] \in {"ok", "exists"} THEN r ELSE EvPut(W, x, srcs, i + 1)
 
-\* objects of one source shard; acc = [W, cnt, handled, fail]
+\* objects of one source shard; acc = [W, cnt, handled (in call order, once per source copy), fail]
 RECURSIVE EvObjs(_, _, _, _, _, _)
 EvObjs(acc, src, lst, srcs, ign, fh) ==
   IF lst = <<>> \/ acc.fail THEN acc
@@ -298,7 +298,7 @@ EvObjs(acc, src, lst, srcs, ign, fh) ==
          ELSE LET r == EvPut(acc.W, x, srcs, 1) IN
               CASE r[1] = "ok" -> EvObjs([acc EXCEPT !.W = r[2], !.cnt = @ + 1], src, Tail(lst), srcs, ign, fh)
                 [] r[1] = "exists" -> EvObjs(acc, src, Tail(lst), srcs, ign, fh)
-                [] OTHER -> IF fh THEN EvObjs([acc EXCEPT !.cnt = @ + 1, !.handled = @ \cup {x}], src, Tail(lst), srcs, ign, fh)
+                [] OTHER -> IF fh THEN EvObjs([acc EXCEPT !.cnt = @ + 1, !.handled = Append(@, x)], src, Tail(lst), srcs, ign, fh)
                             ELSE [acc EXCEPT !.fail = TRUE]
 
 \* metabase.ListWithCursor: physical objects that are not tombstoned / default-marked, in id order
@@ -314,8 +314,8 @@ EvShards(acc, q, srcs, ign, fh) ==
 EvacuateF(W, q, ign, fh) ==
   LET srcs == SeqToSet(q) IN
   IF (\E s \in srcs : ~ReadOnly(W, s)) \/ (NS - Cardinality(srcs) < 1 /\ ~fh)
-    THEN [W |-> W, cnt |-> 0, handled |-> {}, fail |-> TRUE]
-    ELSE EvShards([W |-> W, cnt |-> 0, handled |-> {}, fail |-> FALSE], q, srcs, ign, fh)
+    THEN [W |-> W, cnt |-> 0, handled |-> <<>>, fail |-> TRUE]
+    ELSE EvShards([W |-> W, cnt |-> 0, handled |-> <<>>, fail |-> FALSE], q, srcs, ign, fh)
 
 (* ------------------------------------------------------------------ state machine *)
 NoOp == [st |-> "idle", ord |-> <<>>, i |-> 0, good |-> <<>>, nm |-> {}, pre |-> FALSE]
@@ -448,11 +448,11 @@ DoEvacuate(q, ign, fh) ==
          avail == {x \in Ids : \E s \in roSrcs : ShardGet(W0, s, x, FALSE) = "ok"}
          remo == [x \in Ids |-> EngineGet(Without(W1, srcs), x)]
      IN /\ Install(W1)
-        /\ res' = [c |-> IF r.fail THEN "fail" ELSE "ok", cnt |-> r.cnt, handled |-> SetToSeq(r.handled),
+        /\ res' = [c |-> IF r.fail THEN "fail" ELSE "ok", cnt |-> r.cnt, handled |-> r.handled,
                    rem |-> IF r.fail THEN <<>> ELSE remo]
         /\ ev' = IF r.fail THEN EmptyEv
                  ELSE [on |-> TRUE,
-                       lost |-> {x \in avail \ r.handled : remo[x] # "ok"},
+                       lost |-> {x \in avail \ SeqToSet(r.handled) : remo[x] # "ok"},
                        changed |-> {x \in Regs : EngineGet(W0, x) # EngineGet(W1, x)
                                                   \/ EngineIsLocked(W0, x, IdPerm) # EngineIsLocked(W1, x, IdPerm)},
                        srcs |-> srcs]
